@@ -1,4 +1,4 @@
-from vf.gen import Plan
+from vf.gen import Plan, Module
 from props.fam_model import MEMBERS, member_module, LOAD_PARAMS, LOAD_ARGS, load_slices
 from props.fam_l2 import l2_module
 
@@ -17,4 +17,35 @@ def build(tier, seed):
             mm.ob(f"model_dump_{name}", "v0: int, v1: int, v2: int, e: int", "return c20_dump(MEMBER, MODEL, TREE, DUMPERS, lambda: mk_obj(v0, v1, v2, e))",
                   pre=["-1 <= e <= 1"], timeout=120 if tier == "quick" else 300, family="generated model dumpers: purity and freshness", bounds="symbolic payloads; two calls; 3 debug modes")
         mods.append(mm)
+    mf = Module("c20_flag_enum").pre('''
+from enum import Flag, Enum
+from adaptix import Retort, flag_by_member_names, enum_by_name
+class F3c(Flag):
+    A = 1
+    B = 2
+    C = 4
+    AB = 3
+for _v in range(8): F3c(_v)
+DPS = {(o, dt): Retort(recipe=[flag_by_member_names(F3c, allow_compound=o)], debug_trail=dt).get_dumper(F3c) for o in (True, False) for dt in DT_MODES}
+LDS = {(o, dt): Retort(recipe=[flag_by_member_names(F3c, allow_compound=o)], debug_trail=dt).get_loader(F3c) for o in (True, False) for dt in DT_MODES}
+def flag_fresh(v, o):
+    v = pick(v, 8)
+    for dt in DT_MODES:
+        dp, ld = DPS[(o, dt)], LDS[(o, dt)]
+        r1 = dp(F3c(v)); r2 = dp(F3c(v))
+        if r1 != r2 or r1 is r2: return False
+        keep = list(r2)
+        r1.append("ZZ")                      # editing an earlier result must not leak into later ones
+        if dp(F3c(v)) != keep: return False
+        data = list(keep); snap = list(keep)
+        if ld(data) != F3c(v) or data != snap: return False
+    return True
+''')
+    mf.ob("flag_dump_fresh", "v: int, o: bool", "return flag_fresh(v, o)", pre=["0 <= v < 8"], timeout=120, family="flag by member names: dumped lists are fresh",
+          bounds="all 8 flag values, allow_compound both ways, 3 debug modes")
+    mods.append(mf)
+    from props.C13 import build as build_c13
+    for m13 in build_c13(tier, seed).modules:
+        m13.obs = [o for o in m13.obs if o.name in ("containers_fresh", "nested", "simple")]
+        mods.append(m13)
     return Plan("C20", mods, assumptions=["CrossHair models of builtins"], bounds={}, outside=[])
